@@ -41,7 +41,19 @@ type Cube struct {
 	Ticks    int
 	K        int  // steps (0 = default)
 	Race     bool `json:",omitempty"` // weave the happens-before monitor (C12)
-	Mid      int  // number of jobs enqueued only after an explicit pause marker (unused)
+	// Hunt: bug-hunting cube. Only the obligation whose name contains this
+	// string is asked, under a short time limit; "unsat" discharges it,
+	// "unknown" is recorded as undecided and is not part of the claim (the
+	// full proof of the cube lives in the thorough tier).
+	Hunt string `json:",omitempty"`
+	// JobCtx: the jobs are enqueued with their own context (pre-cancelled or
+	// not: solver's choice) while Wait is called with a context that stays live.
+	JobCtx bool `json:",omitempty"`
+	// Extra: a cube beyond the registered bound (thorough tier only). When the
+	// solver cannot decide it within the time limit it is reported as undecided
+	// and outside the claim instead of making the check inconclusive.
+	Extra bool `json:",omitempty"`
+	Mid   int  // number of jobs enqueued only after an explicit pause marker (unused)
 }
 
 func (c *Cube) J() int { return len(c.Deps) }
@@ -63,6 +75,9 @@ func (c *Cube) String() string {
 	if len(c.PerJob) > 0 {
 		per = fmt.Sprintf(" perjob=%v", c.PerJob)
 	}
+	if c.JobCtx {
+		per += " jobctx"
+	}
 	return fmt.Sprintf("J%d[%s]N%d%s%s out=%v%s g%d pre=%v tmr=%v", c.J(), strings.Join(ds, "|"), c.N, mode, em, c.Outcomes, per, c.MaxGoex, c.PreCanc, c.Timer)
 }
 
@@ -74,6 +89,7 @@ func HarnessSource(cubes []*Cube) string {
 import "context"
 
 func verifNdCtx() context.Context
+func verifNdJobCtx() context.Context
 func verifNdJob(k int) func(context.Context) error
 func verifNdReturned(err error)
 func verifNdSubmitted(hasDeps bool)
@@ -98,6 +114,11 @@ func verifHarness_default() {
 `)
 	for _, c := range cubes {
 		fmt.Fprintf(&sb, "func verifHarness_%s() {\n\tctx := verifNdCtx()\n", c.ID)
+		jctx := "ctx"
+		if c.JobCtx {
+			sb.WriteString("\tjctx := verifNdJobCtx()\n")
+			jctx = "jctx"
+		}
 		em := ""
 		if c.Emitter {
 			em = ", Emitter: verifEmitter{}"
@@ -122,7 +143,7 @@ func verifHarness_default() {
 				}
 				deps = fmt.Sprintf(", Dependencies: []*ScheduledJob{%s}", strings.Join(ds, ", "))
 			}
-			fmt.Fprintf(&sb, "\tverifNdEnqueueing(%d)\n\t%ss.Enqueue(ctx, Job{Run: verifNdJob(%d)%s})\n\tverifNdSubmitted(%v)\n", k, lhs, k, deps, len(d) > 0)
+			fmt.Fprintf(&sb, "\tverifNdEnqueueing(%d)\n\t%ss.Enqueue(%s, Job{Run: verifNdJob(%d)%s})\n\tverifNdSubmitted(%v)\n", k, lhs, jctx, k, deps, len(d) > 0)
 		}
 		sb.WriteString("\terr := s.Wait(ctx)\n\tverifNdReturned(err)\n}\n\n")
 	}
@@ -140,6 +161,8 @@ type L1 struct {
 	submitted, submittedDeps                           int   // BV8
 	emits                                              int   // BV8 number of state reports
 	ctxChan                                            *Obj
+	jobCtxChan                                         *Obj
+	jobCtxCancelled                                    *Term
 	retErr                                             int // 2 cells: tag,data
 	returned                                           int // Bool
 	emitAfterReturn                                    int
@@ -231,6 +254,31 @@ func nilIface(B *TB) Value               { return Value{B.BV(16, 0), B.BV(64, 0)
 
 func (l *L1) ctxDone(p *Path) *Term { return l.E.chanClosed(p, l.ctxChan) }
 
+// jobCtxDone: the context the jobs were enqueued with is done.
+func (l *L1) jobCtxDone(p *Path) *Term {
+	if l.jobCtxChan != nil {
+		return l.E.chanClosed(p, l.jobCtxChan)
+	}
+	return l.ctxDone(p)
+}
+
+func (l *L1) jobCtxVal() Value {
+	B := l.E.B
+	if l.jobCtxChan != nil {
+		return Value{B.BV(16, TagCtx), B.BV(64, uint64(l.jobCtxChan.Base))}
+	}
+	return Value{B.BV(16, TagCtx), B.BV(64, uint64(l.ctxChan.Base))}
+}
+
+// doneOf: the Done state of the context value recv (one of the two contexts of the cube).
+func (l *L1) doneOf(p *Path, recv Value) *Term {
+	B := l.E.B
+	if l.jobCtxChan == nil {
+		return l.ctxDone(p)
+	}
+	return B.Ite(B.Eq(recv[1], B.BV(64, uint64(l.jobCtxChan.Base))), l.E.chanClosed(p, l.jobCtxChan), l.ctxDone(p))
+}
+
 func (l *L1) installIntrinsics() {
 	e := l.E
 	B := e.B
@@ -262,6 +310,15 @@ func (l *L1) installIntrinsics() {
 			p.Store(e, l.ctxChan.Base, l.preCancel)
 		}
 		ic.Return(e, p, Value{B.BV(16, TagCtx), B.BV(64, uint64(l.ctxChan.Base))})
+	}
+	I[pfx+"verifNdJobCtx"] = func(e *Engine, p *Path, ic *ICall) {
+		if l.jobCtxChan == nil {
+			ptr := e.makeChan(p, types.NewStruct(nil, nil), 0, "jobctxchan")
+			l.jobCtxChan = e.ObjAt(ptr.Val)
+			l.jobCtxCancelled = B.Var("jobctx_cancelled", 0)
+			p.Store(e, l.jobCtxChan.Base, l.jobCtxCancelled)
+		}
+		ic.Return(e, p, l.jobCtxVal())
 	}
 	I[pfx+"verifNdJob"] = func(e *Engine, p *Path, ic *ICall) {
 		k := ic.Args[0][0]
@@ -327,7 +384,7 @@ func (l *L1) installIntrinsics() {
 			return nil
 		}
 		return []variant{{what: "ctx.Err", en: B.True, extra: B.True, apply: func(q *Path) {
-			done := l.ctxDone(q)
+			done := l.doneOf(q, e.Eval(q.Cur.top(), in.Call.Value))
 			if e.Race != nil {
 				e.Race.Acquire(q, q.Cur.Pid, fmt.Sprintf("close%d", l.ctxChan.Base), done)
 			}
@@ -342,9 +399,9 @@ func (l *L1) installIntrinsics() {
 				bad = B.Or(bad, B.Not(p.Load(e, l.endedOK[d])))
 			}
 			e.RaiseFlag(p, "C01", bad)
-			e.RaiseFlag(p, "C09start", l.ctxDone(p))
+			e.RaiseFlag(p, "C09start", l.jobCtxDone(p))
 			// the job must be handed the context it was enqueued with
-			e.RaiseFlag(p, "C09ctx", B.Not(e.valEq(ic.Args[0], Value{B.BV(16, TagCtx), B.BV(64, uint64(l.ctxChan.Base))})))
+			e.RaiseFlag(p, "C09ctx", B.Not(e.valEq(ic.Args[0], l.jobCtxVal())))
 			if e.Race != nil {
 				// K6: the Enqueue call and the end of every dependency's body happen-before the body's start
 				hb := e.Race.Leq(p, fmt.Sprintf("enq%d", k), p.Cur.Pid)
@@ -419,7 +476,7 @@ func (l *L1) installIntrinsics() {
 }
 
 func (l *L1) cancellable() bool {
-	return l.Cube.PreCanc || l.Cube.Timer || has(l.Cube.Outcomes, OutCancel)
+	return l.Cube.PreCanc || l.Cube.Timer || l.Cube.JobCtx || has(l.Cube.Outcomes, OutCancel)
 }
 
 func (l *L1) effN() int {
@@ -862,6 +919,9 @@ func (l *L1) ModelTerms() []*Term {
 	}
 	if l.Cube.Timer {
 		ts = append(ts, l.timerArmed)
+	}
+	if l.jobCtxCancelled != nil {
+		ts = append(ts, l.jobCtxCancelled)
 	}
 	return ts
 }
